@@ -152,12 +152,16 @@ class TokenFile:
                     connector = LocalConnector.instance()
                     process = Process.fromDefinition(connector, json.loads(s))
 
-            # Wait out of the lock
-            if process is not None:
-                # Process is None: process has finished
-                process.wait()
+                if process is None:
+                    # The job is not running, and cannot be started while we
+                    # hold its lock: the token file is the one we watch
+                    self.delete()
+                    return
 
-            self.delete()
+            # Wait out of the lock, then look again (the job might have been
+            # started again in between)
+            process.wait()
+            run()
 
         threading.Thread(target=run).start()
 
